@@ -58,7 +58,8 @@ def gate_body(b, fn, codes):
             if n not in codes: raise ExtractError(f"{fn}: unknown BodyFormat::{n}")
             out.append((codes[n], dec[0]))
     if not seen_default: raise ExtractError(f"{fn}: no `_ =>` rejection arm")
-    return out
+    if len({c for c, _ in out}) != len(out): raise ExtractError(f"{fn}: a body format is matched twice")
+    return sorted(out)
 
 
 def overrides(src, impl_re):
@@ -72,12 +73,32 @@ def extract():
     codes = body_format_codes(strip(read("src/constants.rs")))
     router = impl_block(src, r"impl Router\s*\{")
     # ---- Router::get: order of the three lookups
-    g = fn_body(router, "get")
-    pos = {"exact": g.find("self.inner.get("), "registries": g.find("self.registries"), "structs": g.find("self.structs")}
-    if -1 in pos.values(): raise ExtractError("Router::get: a lookup is missing")
-    if len(re.findall(r"\.find\(\|entry\| entry\.matches\(path\)\)", g)) != 2: raise ExtractError("Router::get: mount lookups are not `find(|entry| entry.matches(path))`")
-    if g.count("entry.dispatched") != 3: raise ExtractError("Router::get: does not return the dispatched slot three times")
-    f["getOrder"] = [k for k, _ in sorted(pos.items(), key=lambda kv: kv[1])]
+    g = " ".join(fn_body(router, "get").split())
+    ID = r"[a-z_]\w*"
+    look = {"exact": r"self\.inner\.get\(path\)",
+            "registries": rf"self\s*\.registries\s*\.iter\(\)\s*\.find\(\|{ID}\| {ID}\.matches\(path\)\)",
+            "structs": rf"self\s*\.structs\s*\.iter\(\)\s*\.find\(\|{ID}\| {ID}\.matches\(path\)\)"}
+    order, rest = [], g
+    while rest.strip():
+        rest = rest.strip()
+        hit = None
+        for k, rx in look.items():
+            m = re.match(rf"if let Some\(({ID})\) = {rx} \{{ return Some\(Arc::clone\(&\1\.dispatched\)\); \}}", rest) \
+                or re.match(rf"{rx} \.map\(\|({ID})\| Arc::clone\(&\1\.dispatched\)\)$", rest) \
+                or re.match(rf"{rx}\.map\(\|({ID})\| Arc::clone\(&\1\.dispatched\)\)$", rest)
+            if m:
+                hit = (k, m.end()); break
+        if not hit: break
+        order.append(hit[0]); rest = rest[hit[1]:]
+    if rest.strip() or sorted(order) != ["exact", "registries", "structs"]:
+        # not the three plain lookups. A guard, a filter or an extra branch around a lookup is exactly the danger:
+        # make the fact pessimistic (no order => `exact_wins` cannot be instantiated). Anything else: unknown form.
+        if re.search(r"\bif\b(?! let Some)|&&|\|\||\.filter\(|\bmatch\b|starts_with|ends_with|\.len\(\)|\.rev\(\)|\.last\(\)|rfind|position", rest if rest.strip() else g):
+            f["getOrder"] = []
+        else:
+            raise ExtractError("Router::get: lookups not recognised")
+    else:
+        f["getOrder"] = order
     # ---- STACK_SEGS
     m = re.search(r"const STACK_SEGS\s*:\s*usize\s*=\s*(\d+)\s*;", fn_body(src, "dispatch_struct_segments"))
     if not m: raise ExtractError("STACK_SEGS")
@@ -138,7 +159,8 @@ def extract():
     for i in lits:
         j = nx.find("{", i)
         lit = " ".join(nx[j + 1:match_brace(nx, j) - 1].split())
-        if not re.fullmatch(r"middlewares: rest, handler: self\.handler, ctx: self\.ctx,?", lit): good = False
+        fields = sorted(x.strip() for x in lit.rstrip(",").split(","))
+        if fields != ["ctx: self.ctx", "handler: self.handler", "middlewares: rest"]: good = False
     if not re.search(r"Some\(ctx\) => self\.handler\.handle_with_ctx\(req, ctx\)", nx) or not re.search(r"None => self\.handler\.handle\(req\)", nx): good = False
     if not re.search(r"self\.middlewares\.split_first\(\)", nx): good = False
     f["nextForwardsCtx"] = good
